@@ -2,7 +2,9 @@ package main
 
 // C16: the discovery subscription client driven through a verif-tagged handle with a scripted stream factory.
 //   case line: ops  s<n> subscribe | u<n> unsubscribe | up (stream creation succeeds from now on) |
-//                   down (the current stream fails; creation fails until the next up) | f (let the sender loop run)
+//                   down (the current stream fails; creation fails until the next up) | f (let the sender loop run) |
+//                   U<n> (a stream comes up and n is subscribed while its first request is still being sent) |
+//                   B<k> (the same with a burst of k subscriptions, names 100..100+k-1)
 //   output: for every f: the server's view of the current stream (names it has been told to watch, from the requests
 //           it received, in order) or "nostream"; BLOCKED if a call did not return within a second
 
@@ -143,7 +145,7 @@ func runC16(line string) string {
 			break
 		}
 		switch {
-		case op[0] == 'U':
+		case op[0] == 'U' || op[0] == 'B':
 			// a stream comes up and, while its resubscription request is still being sent, the dependency set changes
 			mu.Lock()
 			allowed = true
@@ -161,8 +163,18 @@ func runC16(line string) string {
 					}
 				})
 			}
-			want[op[1:]] = true
-			call(func() { c.Subscribe(op[1:]) })
+			if op[0] == 'B' {
+				// ... a whole burst of changes while the sender is busy with that request
+				nb, _ := strconv.Atoi(op[1:])
+				for k := 0; k < nb && !blocked; k++ {
+					name := strconv.Itoa(100 + k)
+					want[name] = true
+					call(func() { c.Subscribe(name) })
+				}
+			} else {
+				want[op[1:]] = true
+				call(func() { c.Subscribe(op[1:]) })
+			}
 			mu.Lock()
 			gateNext = false
 			mu.Unlock()
@@ -276,7 +288,7 @@ func init() {
 				w = append(w, "s"+strconv.Itoa(i))
 			}
 			lines = append(lines, strings.Join(w, " ")+" up f", "s1 up f u1 s1 f", "up s1 f s1 u1 s2 u2 s2 f down s3 u1 up f",
-				"s1 s2 U3 f u1 f down s4 U5 f", "RUN s1 up f downc s2 up f", "RUN up s1 f down u1 s3 up f")
+				"s1 s2 U3 f u1 f down s4 U5 f", "s1 B40 f u1 f", "s1 up f down B70 f u100 u101 f", "RUN s1 up f downc s2 up f", "RUN up s1 f down u1 s3 up f")
 			r := newRng(*fSeed)
 			for i := 0; i < *fN; i++ {
 				var ops []string
@@ -295,7 +307,13 @@ func init() {
 						for k, nk := 0, 10+r.intn(25); k < nk; k++ {
 							ops = append(ops, "s"+strconv.Itoa(r.intn(40)))
 						}
-					case 5, 6, 7:
+					case 5:
+						if r.chance(1, 3) {
+							ops = append(ops, "down", "B"+strconv.Itoa(20+r.intn(60)), "f")
+							continue
+						}
+						ops = append(ops, "u"+strconv.Itoa(r.intn(12)))
+					case 6, 7:
 						ops = append(ops, "u"+strconv.Itoa(r.intn(12)))
 					default:
 						ops = append(ops, "s"+strconv.Itoa(r.intn(12)))
